@@ -274,29 +274,30 @@ func (w *World) exec(cs *clientState, idx int, op Op) *Rec {
 			break
 		}
 		r.OK = true
-		for {
-			s.YieldUntil("client.stream", func() bool { return len(ch) > 0 })
-			m, ok := <-ch
-			if !ok {
+		r.Batches = w.readStream(ch)
+	case "streamparts":
+		// what a client of the streaming API does: ask for the partitions, then stream each one
+		resp, err := b.GetPartitions(ctx, &proto.ListPartitionRequest{Key: Bytes(op.Key), End: Bytes(op.End)})
+		if err != nil {
+			r.Err = err.Error()
+			break
+		}
+		r.OK, r.Hdr = true, resp.Header.GetRevision()
+		rev := r.RevAbs
+		if rev == 0 {
+			rev = r.Hdr
+			r.RevAbs = rev
+		}
+		for _, k := range resp.PartitionKeys {
+			r.PartKeys = append(r.PartKeys, string(k))
+		}
+		for i := 0; i+1 < len(resp.PartitionKeys); i++ {
+			ch, err := b.ListByStream(ctx, resp.PartitionKeys[i], resp.PartitionKeys[i+1], rev)
+			if err != nil {
+				r.Err = err.Error()
 				break
 			}
-			r.Batches = append(r.Batches, batchOf(m))
-			if m.RangeResponse == nil || !m.RangeResponse.More || len(r.Batches) > 10000 {
-				// terminator: anything that still arrives is recorded (and is a violation of C13)
-				s.Yield("client.stream.end")
-				for {
-					select {
-					case m2, ok2 := <-ch:
-						if ok2 {
-							r.Batches = append(r.Batches, batchOf(m2))
-							continue
-						}
-					default:
-					}
-					break
-				}
-				break
-			}
+			r.Streams = append(r.Streams, w.readStream(ch))
 		}
 	case "watch":
 		wctx, cancel := context.WithCancel(ctx)
@@ -320,6 +321,37 @@ func (w *World) exec(cs *clientState, idx int, op Op) *Rec {
 	}
 	finish()
 	return r
+}
+
+// readStream consumes a range stream until its terminator and records anything after it.
+func (w *World) readStream(ch <-chan *proto.StreamRangeResponse) []Batch {
+	s := w.S
+	var out []Batch
+	for {
+		s.YieldUntil("client.stream", func() bool { return len(ch) > 0 })
+		m, ok := <-ch
+		if !ok {
+			break
+		}
+		out = append(out, batchOf(m))
+		if m.RangeResponse == nil || !m.RangeResponse.More || len(out) > 10000 {
+			// terminator: anything that still arrives is recorded (and is a violation of C13)
+			s.Yield("client.stream.end")
+			for {
+				select {
+				case m2, ok2 := <-ch:
+					if ok2 {
+						out = append(out, batchOf(m2))
+						continue
+					}
+				default:
+				}
+				break
+			}
+			break
+		}
+	}
+	return out
 }
 
 func batchOf(m *proto.StreamRangeResponse) Batch {
